@@ -249,6 +249,7 @@ def handleRun (j : Json) : Except String Json := do
       match kind with
       | "ok" => .ok bytes cerr []
       | "panic" => .panic cerr []
+      | "formatError" => .formatError bytes cerr []
       | _ => .error cerr []
     let r := run cfg core w
     let writes := ([cfg.output, cfg.log].filter (· != "")).filter fun p => r.world.get p != w.get p
